@@ -81,6 +81,14 @@ class PlanToTrajectory(Harness):
                                    expected=str(post), observed=str(V.v_state(t.next_state)), input={**inp, "step": k}))
             if t.next_state.is_init:
                 out.append(Failure(clause="only the first state is an initial state", expected=False, observed=True, input={**inp, "step": k}))
+            # applied directly (the triplet's own, already grounded operator object): refused with an error iff inapplicable
+            env = {p_: a_ for (p_, _), a_ in zip(dspec["actions"][call[0]]["params"], call[1])}
+            applicable = SEM.holds(dspec["actions"][call[0]]["pre"], env, pre, dict(pspec["objects"]), dspec["types"])
+            direct = RA.outcome(t.operator.apply, t.previous_state)
+            if applicable and (direct[0] != "ok" or not SEM.states_equal(V.v_state(direct[1]), SEM.succ(dspec["actions"][call[0]], call[1], pre, dict(pspec["objects"]), dspec["types"]))):
+                out.append(Failure(clause="applying the step's operator directly to its pre-state gives the successor", expected="successor", observed=str(direct)[:200], input={**inp, "step": k}))
+            if not applicable and direct != ("exc", "ValueError"):
+                out.append(Failure(clause="an action whose precondition is false is refused with an error when applied directly", expected="ValueError", observed=str(direct)[:200], input={**inp, "step": k}))
             if out:
                 return out[:3]
         if tr:
